@@ -1,3 +1,7 @@
+#[cfg(feature = "verif")]
+#[allow(unused_imports)]
+use qbice_verif_rt::{tokio, std};
+
 use std::sync::atomic::AtomicUsize;
 
 pub struct EveryNQueryYielder {
